@@ -198,7 +198,8 @@ pub fn gen_c15(rng: &mut Rng, tier: Tier) -> C15Plan {
             h = nh;
             ptype = PType::I;
         }
-        let s = gen_picture(rng, &cfg, fl.clone(), ptype, w, h, tr);
+        let flq = requalify(rng, &fl, w, h);
+        let s = gen_picture(rng, &cfg, flq, ptype, w, h, tr);
         if ptype != PType::Disposable {
             has_ref = true;
         }
